@@ -53,6 +53,7 @@ type Contract struct {
 	Uses     []string // lemma: names of earlier lemmas used as hypotheses
 	Witnesses []*Witness // existentially quantified ghost values of the postcondition
 	Writes   []string   // lib: pointer parameters whose pointee is overwritten with an unconstrained value
+	After    map[string][]string // post label -> earlier post labels assumed (at the same exit) when proving it
 	Applies  []*Clause  // lemma: explicit instances of earlier lemmas, e.g. KVol_tail(s, bech32(p), s2, bech32(p2))
 	Hints    []*Clause  // lemma: terms mentioned so that axiom patterns can fire (no new facts)
 }
@@ -67,7 +68,7 @@ type Witness struct {
 
 var clauseKW = map[string]bool{"func": true, "lib": true, "lemma": true, "props": true, "theory": true, "requires": true, "ensures": true, "preserves": true,
 	"modifies": true, "loop": true, "returns": true, "inline": true, "noinline": true, "pure": true, "maypanic": true, "trusted": true,
-	"results": true, "fresh": true, "uses": true, "end": true, "witness": true, "hint": true, "assumes": true, "writes": true, "apply": true}
+	"results": true, "fresh": true, "uses": true, "end": true, "witness": true, "hint": true, "assumes": true, "writes": true, "apply": true, "after": true}
 
 var labelRe = regexp.MustCompile(`^\s*(\[[A-Za-z0-9_, ]+\])?\s*([A-Za-z_][A-Za-z0-9_]*)\s*:([^:=].*|$)`)
 var tagOnlyRe = regexp.MustCompile(`^\s*\[([A-Za-z0-9_, ]+)\]\s*(.*)$`)
@@ -210,6 +211,16 @@ func parseContractFile(path, pkgPath string) ([]*Contract, error) {
 				return nil, fmt.Errorf("%s:%d: %v", path, r.line, err)
 			}
 			cur.Witnesses = append(cur.Witnesses, &Witness{Name: head[:j], Sort: strings.TrimSpace(head[j:]), E: e, Src: r.text})
+		case "after":
+			// "after <post> assume <post> <post> ...": the named posts, stated earlier and proved on their own, are lemmas for this one
+			fs := strings.Fields(strings.ReplaceAll(r.text, ",", " "))
+			if len(fs) < 3 || fs[1] != "assume" {
+				return nil, fmt.Errorf("%s:%d: malformed after clause", path, r.line)
+			}
+			if cur.After == nil {
+				cur.After = map[string][]string{}
+			}
+			cur.After[fs[0]] = append(cur.After[fs[0]], fs[2:]...)
 		case "apply":
 			c, err := parseClause(r.text, path, r.line)
 			if err != nil {
